@@ -80,6 +80,9 @@ func Lexemes(sql string) []string {
 	return out
 }
 
+// IsStartKeyword: the word starts a statement (recovery resynchronises on it).
+func IsStartKeyword(l string) bool { return startKeywords[strings.ToUpper(l)] }
+
 func classify(sql, origin string) (Stmt, bool) {
 	lex := Lexemes(sql)
 	if len(lex) == 0 {
